@@ -93,7 +93,7 @@ RECURSIVE Consume(_, _, _, _)
 Consume(d, sigs, i, bad) ==
     IF i > Len(sigs) THEN [d |-> d, bad |-> bad]
     ELSE IF WellFormed(d, sigs[i])
-         THEN LET nx == Apply(d, sigs[i]) IN IF nx.th = nx.th THEN Consume(nx, sigs, i + 1, bad) ELSE [d |-> d, bad |-> bad]
+         THEN LET nx == Apply(d, sigs[i]) IN IF Len(nx.cells) = nx.th THEN Consume(nx, sigs, i + 1, bad) ELSE [d |-> d, bad |-> bad]
          ELSE Consume(d, sigs, i + 1, IF bad = 0 THEN i ELSE bad)
 
 -----------------------------------------------------------------------------
